@@ -227,6 +227,10 @@ func zzC05Boot(t testing.TB, dir string) (sys *zzC05Sys) {
 		t.Fatalf("initDNS: %v", err)
 	}
 
+	if sc, ok := globalContext.stats.(interface{ ZZVerifInstallClock() }); ok {
+		sc.ZZVerifInstallClock()
+	}
+
 	if err = startDNSServer(); err != nil {
 		t.Fatalf("startDNSServer: %v", err)
 	}
@@ -588,6 +592,27 @@ type zzC05FamRes struct {
 	Panics    []string       `json:"panics"`
 	UpCalls   int64          `json:"up_calls"`
 	Codes     map[string]int `json:"codes"`
+
+	WorkerSteps int64 `json:"worker_steps"`
+}
+
+// zzC05WorkerOf returns the background-worker step that belongs to a family
+// (Concurrency.tla: FilterRefresh, StatsFlush, QLogFlush/rotation).
+func zzC05WorkerOf(fam string) (step func()) {
+	switch fam {
+	case "FilterLists":
+		return globalContext.filters.ZZVerifRefreshStep
+	case "StatsConf":
+		if sc, ok := globalContext.stats.(interface{ ZZVerifNextHour() }); ok {
+			return sc.ZZVerifNextHour
+		}
+	case "QueryLogConf":
+		if ql, ok := globalContext.queryLog.(interface{ ZZVerifRotateStep() }); ok {
+			return ql.ZZVerifRotateStep
+		}
+	}
+
+	return nil
 }
 
 func zzC05RunFamily(
@@ -758,6 +783,38 @@ func zzC05RunFamily(
 				}
 			}
 		}(a)
+	}
+
+	// Background worker steps (the real workers' timers fire too rarely for a
+	// stress run; the shims run exactly one step of the worker's own loop body).
+	if wk := zzC05WorkerOf(fam); wk != nil {
+		wg.Add(1)
+		go func() {
+			defer wg.Done()
+			defer func() {
+				if r := recover(); r != nil {
+					buf := make([]byte, 1<<14)
+					buf = buf[:runtime.Stack(buf, false)]
+					mu.Lock()
+					res.Panics = append(res.Panics, fmt.Sprintf("worker: %v\n%s", r, buf))
+					mu.Unlock()
+				}
+			}()
+
+			for {
+				select {
+				case <-stop:
+					return
+				default:
+				}
+
+				wk()
+				mu.Lock()
+				res.WorkerSteps++
+				mu.Unlock()
+				time.Sleep(3 * time.Millisecond)
+			}
+		}()
 	}
 
 	time.Sleep(d)
